@@ -43,6 +43,54 @@ def obs_id(r, table):
     return table.setdefault(o, len(table) + 1)
 
 
+EFFECT_ORDER = '''Binde "Duden/Ausgabe" ein.
+Die Zahl zaehler ist 0.
+Die Funktion naechste gibt eine Zahl zurück, macht:
+	Erhöhe zaehler um 1.
+	Gib zaehler zurück.
+Und kann so benutzt werden:
+	"die naechste Nummer"
+Die Funktion markiert mit dem Parameter t vom Typ Text, gibt einen Text zurück, macht:
+	Erhöhe zaehler um 1.
+	Gib t verkettet mit (zaehler als Text) zurück.
+Und kann so benutzt werden:
+	"<t> markiert"
+Wir nennen die Kombination aus
+	der Zahl eins mit Standardwert 0,
+	der Zahl zwei mit Standardwert 0,
+	der Zahl drei mit Standardwert 0,
+	dem Text vier mit Standardwert "",
+einen Vierer, und erstellen sie so:
+	"ein Vierer aus <eins>, <zwei>, <drei> und <vier>" oder
+	"ein Vierer rueckwaerts aus <vier>, <drei>, <zwei> und <eins>" oder
+	"ein Zweier aus <drei> und <eins>"
+Die Funktion zeige mit dem Parameter v vom Typ Vierer, gibt nichts zurück, macht:
+	Schreibe (eins von v).
+	Schreibe " ".
+	Schreibe (zwei von v).
+	Schreibe " ".
+	Schreibe (drei von v).
+	Schreibe " ".
+	Schreibe (vier von v) auf eine Zeile.
+Und kann so benutzt werden:
+	"zeige <v>"
+Die Funktion drei_zahlen mit den Parametern a, b und c vom Typ Zahl, Zahl und Zahl, gibt eine Zahl zurück, macht:
+	Gib a mal 100 plus b mal 10 plus c zurück.
+Und kann so benutzt werden:
+	"kombiniere <a>, <b> und <c>" oder
+	"kombiniere rueckwaerts <c>, <b> und <a>"
+zeige (ein Vierer aus (die naechste Nummer), (die naechste Nummer), (die naechste Nummer) und ("x" markiert)).
+zeige (ein Vierer rueckwaerts aus ("y" markiert), (die naechste Nummer), (die naechste Nummer) und (die naechste Nummer)).
+zeige (ein Zweier aus (die naechste Nummer) und (die naechste Nummer)).
+zeige (ein Vierer aus (die naechste Nummer), (die naechste Nummer), (die naechste Nummer) und ("z" markiert)).
+Schreibe (kombiniere (die naechste Nummer), (die naechste Nummer) und (die naechste Nummer)) auf eine Zeile.
+Schreibe (kombiniere rueckwaerts (die naechste Nummer), (die naechste Nummer) und (die naechste Nummer)) auf eine Zeile.
+Die Zahlen Liste l ist eine Liste, die aus (die naechste Nummer), (die naechste Nummer), (die naechste Nummer) besteht.
+Schreibe l auf eine Zeile.
+Schreibe ((die naechste Nummer) minus (die naechste Nummer) mal (die naechste Nummer)) auf eine Zeile.
+'''
+
+
 def run(tier):
     ck = Check("C16", tier)
     rng = vlib.rng("c16")
@@ -97,6 +145,9 @@ def run(tier):
         for k in range(1, G["n"]):
             files["m%d.ddp" % k] = c10.module_src(k, G["imp"][k]).encode()
         proc_items.append(("modules:%s" % json.dumps(g).replace(" ", ""), files, "main.ddp"))
+    # programs in which the ORDER of evaluating sibling sub-expressions is observable (effects on a global counter): arguments of a
+    # Kombination literal, of a function call, elements of a list literal, operands; the executables of all K compilations must behave alike
+    proc_items.append(("modules:evaluation-order", {"main.ddp": EFFECT_ORDER.encode()}, "main.ddp"))
     from concurrent.futures import ThreadPoolExecutor
 
     def proc(item):
